@@ -91,6 +91,20 @@ def gen_model(rng, idx):
         spec["algebraics"].append({"name": "ydly"})
         spec["equations"].append([["v", "ydly"], ["+", ["v", "dly0"], ["c", "1"]]])
     spec["outputs"] = [v["name"] for v in spec["states"]] + [v["name"] for v in spec["algebraics"][:2]]
+    if spec["aliases"] and rng.random() < 0.7:
+        # an output that is a negated alias of another variable
+        a = spec["aliases"][0][0]
+        if a not in spec["outputs"]:
+            spec["outputs"].append(a)
+    if rng.random() < 0.3:
+        # two outputs of one alias class
+        tgt = rng.choice(spec["states"])["name"]
+        spec["algebraics"].append({"name": "same_" + tgt})
+        spec["equations"].append([["v", "same_" + tgt], ["v", tgt]])
+        spec["aliases"].append(["same_" + tgt, tgt, 1])
+        spec["outputs"].append("same_" + tgt)
+    if rng.random() < 0.25 and not spec["delays"]:
+        spec["rootfinder"] = rng.choice(["fast_newton", "newton"])
     series = {}
     for u in inputs:
         series[u] = [str(dyc(-4, 4)) for _ in range(nsteps + 1)]
@@ -124,6 +138,11 @@ def run_model(spec):
                 o = super().compiler_options()
                 o["cache"] = False
                 return o
+
+            def rootfinder_options(self):
+                if spec.get("rootfinder"):
+                    return {"solver": spec["rootfinder"], "solver_options": {"error_on_fail": False}}
+                return super().rootfinder_options()
 
         p = S(**kwargs)
         names = [v["name"] for v in spec["states"] + spec["algebraics"] + spec["inputs"]] + \
@@ -160,9 +179,9 @@ def run_model(spec):
         shutil.rmtree(base, ignore_errors=True)
 
 
-def run_unsolvable():
+def run_unsolvable(rootfinder=None):
     """y*y + 1 + u = 0 has no real root once u >= 0: update() must raise, not return"""
-    spec = {"name": "Unsolvable", "dt": 3600, "nsteps": 3, "states": [{"name": "x0", "start": "1", "fixed": True}],
+    spec = {"name": "Unsolvable", "rootfinder": rootfinder, "dt": 3600, "nsteps": 3, "states": [{"name": "x0", "start": "1", "fixed": True}],
             "algebraics": [{"name": "y0", "start": "1"}], "inputs": [{"name": "u0"}], "outputs": ["x0"], "parameters": [],
             "equations": [[["v", "der(x0)"], ["c", "0"]],
                           [["c", "0"], ["+", ["+", ["*", ["v", "y0"], ["v", "y0"]], ["c", "1"]], ["v", "u0"]]]],
@@ -262,12 +281,12 @@ def run(ctx):
         specs = [c["spec"] for c in core.corpus_cases(ID)] + [gen_model(ctx.rng, i) for i in range(ctx.n(8, 400))]
     with ProcessPoolExecutor(max_workers=8) as ex:
         results = list(ex.map(safe_run, specs))
-        unsolv = ex.submit(run_unsolvable).result() if not replay else None
+        unsolv = [ex.submit(run_unsolvable, rf).result() for rf in (None, "fast_newton", "newton")] if not replay else []
     terms, meta = [], []
     for spec, res in zip(specs, results):
         if "error" in res:
             ctx.count("model_exception")
-            ctx.violation("sim/exception", {"spec": spec, "error": res["error"]}, no_input=True,
+            ctx.violation("sim/exception", {"spec": spec, "error": res["error"]}, no_input="rtctools" not in res["error"],
                           what="simulation of a generated model failed: %s" % res["error"][:200])
             continue
         obs = res["obs"]
@@ -350,12 +369,11 @@ def run(ctx):
             if abs(want - got) > 1e-9:
                 ctx.violation("sim/get-set-physical", {"spec": spec, "variable": nm, "set": want, "get": got},
                               what="get_var after set_var is not in physical units for %s: %s vs %s" % (nm, want, got))
-    if unsolv is not None:
-        uspec, ures = unsolv
+    for uspec, ures in unsolv:
         ctx.count("unsolvable_probe")
         if "error" not in ures and not ures["raised"]:
             ctx.violation("sim/unsolvable-step-returned", {"spec": uspec, "observations": ures["obs"]},
-                          what="a step without solution returned instead of raising")
+                          what="a step without solution returned instead of raising (rootfinder %s)" % (uspec.get("rootfinder") or "nlpsol"))
 
 
 def safe_run(spec):
